@@ -84,7 +84,7 @@ impl Trig
     }
 }
 
-pub const MAX_BUNDLE: usize = 4;
+pub const MAX_BUNDLE: usize = 8;
 
 /// A trigger bundle assembled at run time. `ents` resolves entity ids of the program to real entities.
 #[derive(Copy, Clone)]
